@@ -60,6 +60,8 @@ type VC struct {
 	with      map[string]bool // lemmas of `scope explicit` this unit asked for (contract clause `with a b`)
 	fnStore   map[string][3]string // heap version name -> (object, function value, previous version) of the store that produced it (function-typed fields only)
 	allocNames map[string]bool     // references created by allocRef: pairwise distinct
+	allocList    []string          // the same references in allocation order
+	elemDeclared bool              // an elemaddr_T function (and iselem) has been declared
 	opaque    map[string]bool // spec fns whose definition is hidden in this unit (clause `opaque pkg.f ...`)
 	skipUndischarged bool // reach script: leave out the goals of obligations that were not discharged
 	writeCount map[string]int // number of updates per heap key (static bound for position-wise stream comparison)
@@ -284,7 +286,26 @@ func (vc *VC) allocRef(st *State, prefix string) string {
 		vc.allocNames = map[string]bool{}
 	}
 	vc.allocNames[r] = true
+	// object references handed out by the allocator are never element addresses (elemaddr_T values): the two
+	// kinds of addresses are disjoint classes of the memory model
+	vc.allocList = append(vc.allocList, r)
+	if vc.elemDeclared {
+		vc.axiom("(not (iselem " + r + "))")
+	}
 	return r
+}
+
+// declIsElem declares the class predicate of element addresses (on first use) and states that none of the
+// references handed out so far by the allocator is one.
+func (vc *VC) declIsElem() {
+	if vc.elemDeclared {
+		return
+	}
+	vc.elemDeclared = true
+	vc.declare("iselem", "(declare-fun iselem (Int) Bool)")
+	for _, r := range vc.allocList {
+		vc.axiom("(not (iselem " + r + "))")
+	}
 }
 
 func fieldKey(S types.Type, fname string) string { return "F:" + structKey(S) + "." + fname }
@@ -396,6 +417,8 @@ func (vc *VC) elemAddr(t types.Type, arr, idx string) string {
 		vc.declare(n+"_arr", "(declare-fun "+n+"_arr (Int) Int)")
 		vc.declare(n+"_idx", "(declare-fun "+n+"_idx (Int) "+vc.idxSort()+")")
 		vc.axiom("(forall ((a Int) (i " + vc.idxSort() + ")) (! (and (= (" + n + "_arr (" + n + " a i)) a) (= (" + n + "_idx (" + n + " a i)) i)) :pattern ((" + n + " a i))))")
+		vc.declIsElem()
+		vc.axiom("(forall ((a Int) (i " + vc.idxSort() + ")) (! (iselem (" + n + " a i)) :pattern ((" + n + " a i))))")
 	}
 	return "(" + n + " " + arr + " " + idx + ")"
 }
